@@ -6,6 +6,7 @@
 #include <geos/operation/relateng/RelateMatrixPredicate.h>
 #include <geos/operation/relateng/IMPatternMatcher.h>
 #include <geos/geom/Envelope.h>
+#include <geos/geom/IntersectionMatrix.h>
 #include <cstdarg>
 #include <fstream>
 #include <iostream>
@@ -72,6 +73,33 @@ int main(int argc, char** argv) {
         GEOS_finish_r(h); return 0; }
     if (argc < 5) return 2;
     uint64_t seed = std::stoull(argv[2]); long n = std::stol(argv[3]); Out out(argv[4]); Rng r(seed);
+    if (stream == "imcase") {   // c01 imcase <matrix> <dimA> <dimB> <pattern>: the real IntersectionMatrix answers for one argument tuple
+        if (argc < 6) return 2;
+        using geos::geom::IntersectionMatrix; std::string m = argv[2], pat = argv[5]; int dA = std::atoi(argv[3]), dB = std::atoi(argv[4]);
+        IntersectionMatrix im(m); std::string e; auto b = [](bool v) { return v ? '1' : '0'; };
+        e += b(im.isDisjoint()); e += b(im.isIntersects()); e += b(im.isTouches(dA, dB)); e += b(im.isCrosses(dA, dB)); e += b(im.isWithin()); e += b(im.isContains());
+        e += b(im.isEquals(dA, dB)); e += b(im.isOverlaps(dA, dB)); e += b(im.isCovers()); e += b(im.isCoveredBy());
+        e += ' '; e += b(im.matches(pat)); e += pc(GEOSRelatePatternMatch_r(h, m.c_str(), pat.c_str()));
+        IntersectionMatrix t(m); t.transpose(); e += ' ' + t.toString();
+        std::cout << "M " << m << " " << dA << " " << dB << " " << pat << "\n" << e << "\n"; GEOS_finish_r(h); return 0; }
+    if (stream == "immatrix") {
+        // the real geom::IntersectionMatrix class (and GEOSRelatePatternMatch_r) on random matrices, dimensions and patterns
+        using geos::geom::IntersectionMatrix;
+        static const char dims[] = "F012"; static const char sym[] = "TF*012";
+        for (long i = 0; i < n; i++) {
+            std::string m, pat; for (int k = 0; k < 9; k++) { m += dims[r.chance(35) ? 0 : r.below(4)]; pat += sym[r.below(6)]; }
+            if (r.chance(30)) pat = FIXED_PATTERNS[r.below(sizeof FIXED_PATTERNS / sizeof FIXED_PATTERNS[0])];
+            if (r.chance(10)) { pat = m; for (auto& ch : pat) if (ch != 'F' && r.chance(50)) ch = 'T'; }           // a pattern that matches
+            int dA = r.range(-1, 2), dB = r.range(-1, 2);
+            IntersectionMatrix im(m); std::string e;
+            auto b = [](bool v) { return v ? '1' : '0'; };
+            e += b(im.isDisjoint()); e += b(im.isIntersects()); e += b(im.isTouches(dA, dB)); e += b(im.isCrosses(dA, dB)); e += b(im.isWithin()); e += b(im.isContains());
+            e += b(im.isEquals(dA, dB)); e += b(im.isOverlaps(dA, dB)); e += b(im.isCovers()); e += b(im.isCoveredBy());
+            e += ' '; e += b(im.matches(pat)); e += pc(GEOSRelatePatternMatch_r(h, m.c_str(), pat.c_str()));
+            IntersectionMatrix t(m); t.transpose(); e += ' ' + t.toString();
+            out.count(std::string("match_") + (im.matches(pat) ? "true" : "false"));
+            out.emit("M " + m + " " + std::to_string(dA) + " " + std::to_string(dB) + " " + pat, e); }
+        GEOS_finish_r(h); return 0; }
     if (stream == "pred-sm") {
         for (long i = 0; i < n; i++) { std::string c; std::string t = predSM(r, out, c); out.emit(c, t); }
         GEOS_finish_r(h); return 0; }
@@ -84,9 +112,9 @@ int main(int argc, char** argv) {
         GGeom B;
         int mode = (int) r.below(100);
         if (mode < 4) B = A;
-        else if (mode < 10 && gen.holeSwallower(A, B)) {}
-        else if (mode < 20) B = gen.partialCover(A, true);
-        else { if (mode < 30) gen.setPartnerInterior(A); B = gen.geom(3, true, true); }
+        else if (mode < 14 && gen.holeSwallower(A, B)) {}
+        else if (mode < 26) B = gen.partialCover(A, true);
+        else { if (mode < 36) gen.setPartnerInterior(A); B = gen.geom(3, true, true); }
         if (r.chance(50)) std::swap(A, B);
         Xform t = gen.xform();
         std::string ta = GridGen::geomTok(A, t), tb = GridGen::geomTok(B, t);
